@@ -27,6 +27,9 @@ CORPORA = {
                     family="timeout", trace="TimeoutTrace.tla", tracecfg="TimeoutTrace.cfg"),
     "router": dict(gen="MCRouter.tla", cfg={"quick": "router_quick.cfg", "thorough": "router_thorough.cfg"},
                    family="router", trace="RouterTrace.tla", tracecfg="RouterTrace.cfg", shards=16),
+    # tables in which one template carries a wildcard-method binding (custom kind "*") next to concrete ones
+    "router_wild": dict(gen="MCRouter.tla", cfg={"quick": "router_wild.cfg", "thorough": "router_wild.cfg"},
+                        family="router", trace="RouterTrace.tla", tracecfg="RouterTrace.cfg", shards=4),
     "config": dict(gen="MCConfig.tla", cfg={"quick": "config_quick.cfg", "thorough": "config_thorough.cfg"},
                    family="config", trace="ConfigTrace.tla", tracecfg="ConfigTrace.cfg"),
     "restbind": dict(gen="MCRestBind.tla", cfg={"quick": "restbind_quick.cfg", "thorough": "restbind_thorough.cfg"},
@@ -74,7 +77,7 @@ PROPS = {
     "C03": dict(corpora=["stream_matrix", "stream_errors", "stream_faults", "stream_hostile", "httpbody", "suite"], prefix="C03."),
     "C04": dict(corpora=["stream_errors", "stream_hostile"], prefix="C04."),
     "C05": dict(corpora=["stream_headers", "stream_errors", "suite"], prefix="C05."),
-    "C06": dict(corpora=["router"], prefix="C06."),
+    "C06": dict(corpora=["router", "router_wild"], prefix="C06."),
     "C07": dict(corpora=["restbind", "httpbody", "restfield"], prefix="C07."),
     "C08": dict(corpora=["stream_chunks"], prefix="C08.",
                 design=[("MCFraming.tla", "framing_%s_fixed.cfg" % p) for p in ("R1", "R2", "R3", "R4", "R5", "R5e")] +
